@@ -962,6 +962,9 @@ func leafBytes(n parquet.Node, v reflect.Value) []byte {
 		}
 		return []byte(v.String())
 	case reflect.Slice:
+		if kind == parquet.FixedLenByteArray && v.Len() != typ.Length() {
+			panic("leafBytes: byte slice of the wrong size for a fixed size column")
+		}
 		return append([]byte{}, v.Bytes()...)
 	case reflect.Array:
 		b := make([]byte, v.Len())
@@ -1726,6 +1729,24 @@ func runCase(c *core.Ctx, ct *cat, rows reflect.Value, split []int, bucket strin
 
 var shrinkBudget = 400
 
+// validRows: the shrinker must not turn a batch into one the library is not
+// required to accept (a required UUID string that does not parse, a byte slice
+// of the wrong size for a fixed size column, nil at a required interface leaf)
+func validRows(ct *cat, rows reflect.Value) (ok bool) {
+	if !ct.nodeGen {
+		return true
+	}
+	defer func() {
+		if r := recover(); r != nil {
+			ok = false
+		}
+	}()
+	for i := 0; i < rows.Len(); i++ {
+		mValue(ct.schema, rows.Index(i))
+	}
+	return true
+}
+
 func sliceWithout(v reflect.Value, start, count int) reflect.Value {
 	out := reflect.MakeSlice(v.Type(), 0, v.Len()-count)
 	out = reflect.AppendSlice(out, v.Slice(0, start))
@@ -1736,7 +1757,7 @@ func sliceWithout(v reflect.Value, start, count int) reflect.Value {
 func shrinkCase(c *core.Ctx, ct *cat, rows reflect.Value, split []int) (reflect.Value, []int) {
 	budget := shrinkBudget
 	fails := func(r reflect.Value, sp []int) bool {
-		if budget <= 0 {
+		if budget <= 0 || !validRows(ct, r) {
 			return false
 		}
 		budget--
@@ -2190,7 +2211,7 @@ func (g *gen) fillN(n parquet.Node, v reflect.Value, path string) {
 			return
 		}
 		if _, ok := logicalOf(n).(*format.UUIDType); ok {
-			if !zero {
+			if !zero || !n.Optional() { // a required UUID column has no value for ""
 				var u uuid.UUID
 				g.rng.Read(u[:])
 				v.SetString(u.String())
